@@ -94,6 +94,14 @@ func init() {
 	seed(Seed{Name: "broadcast-round-shares-one-deadline", Prop: "C13", Rule: "ONESHOT-FRESH", File: res + "crdt.go",
 		Old: "\tcalls := hashmap.New[callWithTimeout]()\n\tfor _, id := range res.peerIds {\n\t\tif client, ok := res.conns.Get(id); ok {\n\t\t\tvar reply ReceiveValueResp\n\t\t\tcalls.Set(id, callWithTimeout{\n\t\t\t\tcall:        client.Go(\"CRDTRPCReceiver.ReceiveValue\", args, &reply, nil),\n\t\t\t\ttimeoutChan: time.After(res.config.sendTimeout),",
 		New: "\troundTimeout := time.After(res.config.sendTimeout)\n\tcalls := hashmap.New[callWithTimeout]()\n\tfor _, id := range res.peerIds {\n\t\tif client, ok := res.conns.Get(id); ok {\n\t\t\tvar reply ReceiveValueResp\n\t\t\tcalls.Set(id, callWithTimeout{\n\t\t\t\tcall:        client.Go(\"CRDTRPCReceiver.ReceiveValue\", args, &reply, nil),\n\t\t\t\ttimeoutChan: roundTimeout,", Expect: "crdt.broadcast"})
+	seed(Seed{Name: "vclock-merge-fastpath-returns-receiver", Prop: "C18", Rule: "VCLOCK-MERGE", File: tla + "vclock.go",
+		Old: "\treturn VClock{\n\t\tclock: acc,\n\t}\n}\n\nfunc (clock VClock) Get", New: "\tif acc == self.clock {\n\t\treturn clock\n\t}\n\treturn VClock{\n\t\tclock: acc,\n\t}\n}\n\nfunc (clock VClock) Get", Expect: "returns-the-merged-clock"})
+	seed(Seed{Name: "monitor-run-error-shadowed", Prop: "C17", Rule: "RUN-OUTCOME", File: res + "fd.go",
+		Old: "\terr = ctx.Run()\n\t//log.Println(\"finished\", archetypeID, err)\n\tif err == nil {", New: "\tif err := ctx.Run(); err == nil {", Expect: "RunArchetype"})
+	seed(Seed{Name: "prerun-before-epilogue", Prop: "C17", Rule: "CLOSE-ONCE", File: "distsys/mpcalctx.go",
+		Old: "\tif hasAlreadyClosed {\n\t\treturn nil\n\t}\n", New: "\tif hasAlreadyClosed {\n\t\treturn nil\n\t}\n\tctx.preRun()\n", Expect: "epilogue-registered-right-after-the-gate"})
+	seed(Seed{Name: "merger-folds-working-value-into-snapshot", Prop: "C13", Rule: "CRDT-SNAPSHOT", File: res + "crdt.go",
+		Old: "\t\t\t\t\tres.oldValue = res.oldValue.Merge(mergeVal)", New: "\t\t\t\t\tres.oldValue = res.oldValue.Merge(res.value)", Expect: "snapshot-takes-received-state-only"})
 	seed(Seed{Name: "merge-second-loop-reuses-iterator", Prop: "C12", Rule: "ITER-FRESH", File: res + "aworset.go",
 		Old: "\ti = remK.Iterator()\n", New: "", Expect: "AWORSet.Merge"})
 }
